@@ -1,6 +1,6 @@
 (* C02 — a clean Close followed by reopen preserves the exact contents; snapshot and rescan agree. *)
 From Coq Require Import List NArith.
-From STH Require Import Log Lex Index Store IndexStore Refine Full2 Codec Crash Crash2 Statements Statements2.
+From STH Require Import Log Lex Index Store IndexStore Refine Full2 Codec Crash Crash2 Statements Statements2 Budget Budget2 Statements6.
 Import ListNotations.
 Open Scope N_scope.
 
@@ -39,3 +39,13 @@ Theorem C02_histories_with_reopen :
     run (init bits imx pmx imm) ops = spec_run imm sempty ops.
 Proof. exact store_refines_map_pf. Qed.
 Print Assumptions C02_histories_with_reopen.
+
+(* ... also in every state reached by a history with TIME-LIMITED collector cycles (a cycle stopped midway leaves records merged in
+   place and nothing truncated; a later cycle resumes): the rescan still rebuilds exactly the live table. *)
+Theorem C02_rescan_rebuilds_the_live_table_with_time_limited_gc :
+  forall bits imx pmx imm (U : bytes -> Prop) l,
+    bits < 32 -> 0 < imx -> 0 < pmx -> key_universe U -> gops_ok U (init bits imx pmx imm) l ->
+    let s := grun_state (init bits imx pmx imm) l in
+    forall b, aget b (rescan (sidx s)) = aget b (itable (sidx s)).
+Proof. exact greachable_rescan_eq_table. Qed.
+Print Assumptions C02_rescan_rebuilds_the_live_table_with_time_limited_gc.
